@@ -9,13 +9,16 @@ PKGS = ["onefile", "twofiles", "noconcat"]
 PROFILES = ["content-larger", "directory-larger"]
 
 
-def run_child(binary, casefile, d, limit=None, ignore_xfsz=False, wrapper=None, kill_after=None):
-    cmd = (wrapper or []) + [binary, "c09-child", "--case-file", casefile, "--dir", d, "--name", "c.jbk", "--ignore-xfsz", "1" if ignore_xfsz else "0"]
+def run_child(binary, casefile, d, limit=None, ignore_xfsz=False, wrapper=None, kill_after=None, transient=False):
+    """ignore_xfsz: every write past the limit returns EFBIG; transient: only the first one does (the child's SIGXFSZ handler lifts the
+    soft limit, so the hard limit is left unlimited here)."""
+    mode = "2" if transient else ("1" if ignore_xfsz else "0")
+    cmd = (wrapper or []) + [binary, "c09-child", "--case-file", casefile, "--dir", d, "--name", "c.jbk", "--ignore-xfsz", mode]
 
     def pre():
         os.setsid()
         if limit is not None:
-            resource.setrlimit(resource.RLIMIT_FSIZE, (limit, limit))
+            resource.setrlimit(resource.RLIMIT_FSIZE, (limit, resource.RLIM_INFINITY if transient else limit))
 
     p = subprocess.Popen(cmd, stdout=subprocess.DEVNULL, stderr=subprocess.PIPE, preexec_fn=pre, env=env(), cwd=d)
     if kill_after is not None:
@@ -51,10 +54,11 @@ def inspect(binary, casefile, d, olddir):
 def run(tier, seed):
     rep = Report("C09", tier, seed, "fault_enumeration",
                  "crash points = for packaging in {OneFile, TwoFiles, NoConcat} x size profile {content file larger, directory file larger} x "
-                 "variant {process death by SIGXFSZ, EFBIG error return with SIGXFSZ ignored} x destination {empty, holding a previous complete "
+                 "variant {process death by SIGXFSZ, EFBIG error return with SIGXFSZ ignored, transient = only the first write past N fails with EFBIG (the "
+                 "child's SIGXFSZ handler lifts the limit)} x destination {empty, holding a previous complete "
                  "container}: RLIMIT_FSIZE = N for N over 0..max output file size (thorough: every N; quick: every N of one configuration "
                  "sampled every 7th / 41st byte offset plus boundary offsets), plus SIGKILL on entry to the K-th rename syscall via strace injection (every K) and SIGKILL after "
-                 "seeded delays. Oracle: afterwards the destination is absent, byte-identical to the previous complete file, or a complete "
+                 "seeded delays. Oracle: afterwards the destination is absent (only when nothing was there before), byte-identical to the previous complete file, or a complete "
                  "container (Container::new + check() true + every referenced pack file present and decoded by the independent decoder to "
                  "exactly the model); the un-injected strace log must show the entry point renamed last. Non-trivial = the child did not "
                  "complete. Distinct = (packaging, profile, variant, pre-existing, N|K|delay).",
@@ -119,10 +123,13 @@ def run(tier, seed):
                 nren = max(1, len(renames))
                 # enumerate crash points
                 full = tier == "thorough"
-                for variant in ("death", "error"):
+                for variant in ("death", "error", "transient"):
                     for pre in (False, True):
                         step = 1 if full else (7 if (pkg == "twofiles" and prof == "content-larger" and variant == "death") else 41)
-                        if tier == "quick" and pre and variant == "error" and prof == "directory-larger":
+                        if variant == "transient" and not full:
+                            # one failing write, every later one succeeds: the writes of the last buffered blocks matter most
+                            step = 3 if (pkg == "onefile" and prof == "content-larger" and not pre) else 23
+                        if tier == "quick" and pre and variant in ("error", "transient") and prof == "directory-larger":
                             continue
                         ns = list(range(0, maxsize + 2, step))
                         if step > 1:
@@ -147,7 +154,7 @@ def run(tier, seed):
                     for n in os.listdir(job["olddir"]):
                         shutil.copy(os.path.join(job["olddir"], n), os.path.join(d, n))
                 if job["mode"] == "fsize":
-                    rc, err = run_child(binary, job["casefile"], d, limit=job["n"], ignore_xfsz=(job["variant"] == "error"))
+                    rc, err = run_child(binary, job["casefile"], d, limit=job["n"], ignore_xfsz=(job["variant"] == "error"), transient=(job["variant"] == "transient"))
                 elif job["mode"] == "rename":
                     rc, err = run_child(binary, job["casefile"], d, wrapper=["strace", "-f", "-o", "/dev/null", "-e", "trace=rename,renameat,renameat2",
                                                                              "-e", f"inject=rename,renameat,renameat2:signal=SIGKILL:when={job['n']}"])
@@ -184,7 +191,10 @@ def run(tier, seed):
                 ok = state in ("absent", "old", "new-complete") if not completed else state == "new-complete"
                 if state == "old" and not job["olddir"]:
                     ok = False
-                if completed and job["variant"] == "error" and state != "new-complete":
+                if state == "absent" and job["olddir"]:
+                    # all-or-nothing: a creation that did not go through leaves the previous complete container where it was
+                    ok = False
+                if completed and job["variant"] in ("error", "transient") and state != "new-complete":
                     ok = False
                 if not ok:
                     why = ins.get("why", "")
